@@ -226,10 +226,24 @@ func C13(ctx *core.Ctx) int {
 		fullPerm = 6
 		capExecs = 400000
 	}
+	// wall-clock budget of the thorough tier (a budget, not an oracle: pairs reached after it are still explored,
+	// with the quick tier's parameters, and the evidence says how many)
+	budget := 45 * time.Minute
+	if s := os.Getenv("VERIF_C13_BUDGET_S"); s != "" {
+		if n, err := strconv.Atoi(s); err == nil {
+			budget = time.Duration(n) * time.Second
+		}
+	}
+	var degraded int64
 	enumerated := sync.Map{} // program|lang -> set of outcome hashes, and whether complete
 	core.Parallel(len(jobs), func(i int) {
 		j := jobs[i]
-		set, complete := c13Explore(ctx, j.name, j.text, j.lang, st, fullPerm, capExecs, samples)
+		fp, ce := fullPerm, capExecs
+		if ctx.Thorough() && time.Since(ctx.Start) > budget {
+			fp, ce = 4, 6000
+			atomic.AddInt64(&degraded, 1)
+		}
+		set, complete := c13Explore(ctx, j.name, j.text, j.lang, st, fp, ce, samples)
 		if !j.plain {
 			return
 		}
@@ -315,7 +329,9 @@ func C13(ctx *core.Ctx) int {
 		"pairs_with_reduced_alternatives": st.reduced,
 		"pairs_where_execution_cap_forced_deviation_bound_2": st.bounded,
 		"full_permutations_up_to_n":                          fullPerm,
-		"exhaustive":                                         st.reduced == 0 && st.bounded == 0,
+		"exhaustive":                                         st.reduced == 0 && st.bounded == 0 && degraded == 0,
+		"budget_s":                                           budget.Seconds(),
+		"pairs_explored_with_quick_parameters_after_budget": degraded,
 		"rule": "stateless choice-point DFS: every range over a map in the module's own packages and every time.Now() is a choice point (found by go/types, rewritten by overlay); one execution = real parse + one real generator under a schedule of choices; all schedules enumerated (all n! orders for maps up to the stated n; beyond it identity, adjacent transpositions, rotation, reversal). " +
 			"states = distinct (program, generator, output tree) outcomes; transitions = executions. oracle: every schedule's file map equals the all-default schedule's. traces validated = runs of the un-instrumented binary whose trees must lie inside the enumerated outcome set",
 	}
